@@ -99,7 +99,179 @@ def w_write_u64(failure, tier):
     return dict(found=False, note='write_u64/read_u64 round trip: %d (value, rest) pairs tried, all round-trip' % len(ins))
 
 
+# ---------------------------------------------------------------- U2 WAL
+import json as _json
+import zlib
+
+
+def leb(n):
+    out = bytearray()
+    while n >= 0x80:
+        out.append((n & 0x7F) | 0x80)
+        n >>= 7
+    out.append(n)
+    return bytes(out)
+
+
+def ref_frame(t, payload):
+    """the format the contract states: varint(len) type payload crc32le(type+payload)"""
+    return leb(len(payload)) + bytes([t]) + payload + zlib.crc32(bytes([t]) + payload).to_bytes(4, 'little')
+
+
+def ref_parse(data):
+    """parse_frames + decode of the contract (undecodable payload / unknown type: left open -> returns None = don't compare)"""
+    out = []
+    cur = 0
+    while cur < len(data):
+        r = ref_read_u64(data[cur:])
+        if r[0] != 'OK':
+            break
+        ln, nb = r[1], r[2]
+        if cur + nb >= len(data) or cur + nb + 1 + ln + 4 > len(data):
+            break
+        t = data[cur + nb]
+        p = data[cur + nb + 1:cur + nb + 1 + ln]
+        c = data[cur + nb + 1 + ln:cur + nb + 1 + ln + 4]
+        if zlib.crc32(bytes([t]) + p).to_bytes(4, 'little') != c:
+            break
+        cur += nb + 1 + ln + 4
+        if t == 1:
+            try:
+                d = _json.loads(p.decode('utf-8'))
+            except Exception:
+                return None
+            out.append('Add(%s)' % _json.dumps(d, separators=(',', ':'), sort_keys=True))
+        elif t == 2 and len(p) == 0:
+            out.append('Commit')
+        elif t == 3:
+            try:
+                out.append('Del("%s")' % p.decode('utf-8'))
+            except Exception:
+                return None
+        else:
+            return None
+    return out
+
+
+WAL_OPS = [
+    (1, b'{"fields":{"_id":"a","n":1}}'),
+    (3, b'a'),
+    (2, b''),
+    (1, b'{"fields":{"_id":"b"}}'),
+    (3, b'xyz'),
+]
+
+
+def wal_logs(tier):
+    """(description, bytes) cases: valid logs, every truncation, single-byte flips"""
+    import itertools as it
+    cases = []
+    seqs = []
+    for n in (1, 2, 3):
+        for combo in it.product(range(len(WAL_OPS)), repeat=n):
+            seqs.append([WAL_OPS[i] for i in combo])
+            if len(seqs) > (30 if tier == 'quick' else 155):
+                break
+    for ops in seqs:
+        log = b''.join(ref_frame(t, p) for (t, p) in ops)
+        cases.append(('intact frames %s' % [t for (t, _) in ops], log))
+    base = [WAL_OPS[0], WAL_OPS[1], WAL_OPS[2], WAL_OPS[3]]
+    log = b''.join(ref_frame(t, p) for (t, p) in base)
+    for k in range(len(log)):
+        cases.append(('log of 4 frames cut at byte %d' % k, log[:k]))
+    for k in range(len(log)):
+        for mask in (0x01, 0x80, 0xFF):
+            b = bytearray(log)
+            b[k] ^= mask
+            cases.append(('log of 4 frames, byte %d xor %#x' % (k, mask), bytes(b)))
+    for k in (9, 10, 11, 12):
+        cases.append(('%d continuation bytes' % k, b'\x80' * k))
+        cases.append(('valid frame then %d continuation bytes' % k, ref_frame(2, b'') + b'\xff' * k))
+    return cases
+
+
+def w_replay(failure, tier):
+    cases = wal_logs(tier)
+    res = drive('wal_replay', [c[1] for c in cases])
+    for (desc, data), r in zip(cases, res):
+        exp = ref_parse(data)
+        if r.startswith('PANIC') or r.startswith('ERR'):
+            return dict(found=True, cmd='%s wal_replay <<< %s' % (BIN, data.hex()), input='%s: %s' % (desc, data.hex()), observed=r,
+                        expected='OK with the records of the intact prefix (replay never fails or panics because of log content)')
+        if exp is None:
+            continue
+        got = r[3:].strip()
+        # normalise Add(json) key order
+        exps = ' '.join(exp)
+        if normalise(got) != normalise(exps):
+            return dict(found=True, cmd='%s wal_replay <<< %s' % (BIN, data.hex()), input='%s: %s' % (desc, data.hex()), observed=r,
+                        expected='OK ' + exps + '   (decode of parse_frames(bytes): exactly the intact, checksum-valid prefix)')
+    return dict(found=False, note='Wal::replay: %d logs tried (intact op sequences, every truncation and single-byte xor 0x01/0x80/0xff of a 4-frame log, long continuation runs); all agree with the reference parse' % len(cases))
+
+
+def normalise(s):
+    import re as _re
+    def fix(m):
+        try:
+            return 'Add(%s)' % _json.dumps(_json.loads(m.group(1)), separators=(',', ':'), sort_keys=True)
+        except Exception:
+            return m.group(0)
+    return _re.sub(r'Add\((\{.*?\})\)(?= |$)', fix, s)
+
+
+def w_append(failure, tier):
+    import itertools as it
+    cases = []
+    for n in (1, 2, 3):
+        for combo in it.product(range(len(WAL_OPS)), repeat=n):
+            cases.append([WAL_OPS[i] for i in combo])
+    cases.append([(3, b'k' * 200)])
+    cases.append([(1, ('{"fields":{"_id":"%s"}}' % ('z' * 20000)).encode())])
+    ins = [b''.join(bytes([t]) + len(p).to_bytes(2, 'little') + p for (t, p) in ops) for ops in cases]
+    res = drive('wal_append', ins)
+    for ops, r in zip(cases, res):
+        exp = b''.join(ref_frame(t, p) for (t, p) in ops)
+        # add payloads are re-serialised by serde_json; compare via parse instead when an add is present
+        if any(t == 1 for (t, _) in ops):
+            if not r.startswith('OK '):
+                return dict(found=True, cmd='%s wal_append' % BIN, input=str(ops)[:300], observed=r, expected='OK <frames>')
+            got = bytes.fromhex(r[3:].strip())
+            gp = ref_parse(got)
+            ep = ref_parse(exp)
+            if gp is None or normalise(' '.join(gp)) != normalise(' '.join(ep)):
+                return dict(found=True, cmd='%s wal_append <<< ops' % BIN, input='ops %s' % str([(t, p[:40]) for (t, p) in ops]), observed='log bytes %s which the reference parser reads as %s' % (got.hex()[:400], gp),
+                            expected='a log the reference parser reads as %s (frame = varint(len) type payload crc32le(type+payload))' % ep)
+        elif r != 'OK ' + exp.hex():
+            return dict(found=True, cmd='%s wal_append <<< ops' % BIN, input='ops %s' % str(ops)[:300], observed=r[:600], expected='OK ' + exp.hex()[:600])
+    return dict(found=False, note='Wal::append_*: %d op sequences tried, bytes equal the reference framing' % len(cases))
+
+
+def w_pending(failure, tier):
+    import itertools as it
+    cases = []
+    for n in (0, 1, 2, 3, 4):
+        for combo in it.product(range(len(WAL_OPS)), repeat=n):
+            cases.append([WAL_OPS[i] for i in combo])
+    ins = [b''.join(ref_frame(t, p) for (t, p) in ops) for ops in cases]
+    res = drive('wal_pending', ins)
+    for ops, data, r in zip(cases, ins, res):
+        exp = []
+        for e in ref_parse(data):
+            if e == 'Commit':
+                exp = []
+            else:
+                exp.append(e)
+        exps = ' '.join(exp)
+        if not r.startswith('OK') or normalise(r[3:].strip()) != normalise(exps):
+            return dict(found=True, cmd='%s wal_pending <<< %s' % (BIN, data.hex()), input='log of ops %s' % [t for (t, _) in ops], observed=r,
+                        expected='OK ' + exps + '  (the add/delete entries after the last commit marker, in order)')
+    return dict(found=False, note='Wal::last_pending_ops: %d logs tried, all agree' % len(cases))
+
+
 GENERATORS = {
+    ('U2', 'replay_slice'): w_replay,
+    ('U2', 'append_entry_buf'): w_append,
+    ('U2', 'last_pending_fold'): w_pending,
     ('U1', 'read_u64'): w_read_u64,
     ('U1', 'write_u64'): w_write_u64,
     ('U1', 'write_u32_var'): w_write_u64,
